@@ -1,9 +1,18 @@
 #!/usr/bin/env python3
+"""validate MANIFEST.json and every evidence file; an evidence file left behind by a run against a seeded change (obligations not all
+discharged, violations recorded) must never be committed: re-run the check on the clean tree first"""
 import json, sys, glob
 import jsonschema
 jsonschema.validate(json.load(open('/verif/MANIFEST.json')), json.load(open('/root/.vp/MANIFEST.schema.json')))
 es = json.load(open('/root/.vp/EVIDENCE.schema.json'))
-n = 0
+n, bad = 0, []
 for p in sorted(glob.glob('/verif/evidence/*.json')):
-    jsonschema.validate(json.load(open(p)), es); n += 1
-print("MANIFEST valid;", n, "evidence files valid")
+    d = json.load(open(p))
+    jsonschema.validate(d, es); n += 1
+    c = d.get('coverage', {})
+    if c.get('obligations') != c.get('discharged') or d.get('violations'):
+        bad.append(f"{p}: obligations={c.get('obligations')} discharged={c.get('discharged')} violations={len(d.get('violations') or [])}")
+if bad:
+    print("EVIDENCE NOT FROM A CLEAN RUN:\n  " + "\n  ".join(bad))
+    sys.exit(1)
+print("MANIFEST valid;", n, "evidence files valid and clean")
